@@ -41,6 +41,14 @@ func (s *Server) GetSession(w http.ResponseWriter, r *http.Request, req *saml.Id
 			return nil
 		}
 
+		// bcrypt looks at the first 72 bytes only (and refuses to hash anything
+		// longer), so a longer string can never be a user's password.
+		if len(r.PostForm.Get("password")) > 72 {
+			s.logger.Printf("ERROR: Invalid password for user '%s'", r.PostForm.Get("user"))
+			s.sendLoginForm(w, req, "Invalid username or password")
+			return nil
+		}
+
 		if err := bcrypt.CompareHashAndPassword(user.HashedPassword, []byte(r.PostForm.Get("password"))); err != nil {
 			s.logger.Printf("ERROR: Invalid password for user '%s'", r.PostForm.Get("user"))
 			s.sendLoginForm(w, req, "Invalid username or password")
